@@ -4,6 +4,10 @@ seeded/*/meta.json and seeded/RESULTS.md."""
 import json, glob, os, re
 
 NOTES = {
+ "C20-16": "missed at first: an outsider's audit result witnessed by its author and by an Inner Ring member",
+ "C02-15": "missed at first: balance.newEpoch forwarded by a contract anybody can deploy (the probe), signed by a stranger, the holder, the Alphabet",
+ "C03-15": "missed at first: row 'nns.transfer to the current owner itself'",
+ "C11-15": "missed by C11 at first (C10 had the call): the one-argument renew under every signer set",
  "C03-13": "missed at first: rows 'setAdmin of a name that has an administrator' with the administrator alone and with the administrator plus the new one",
  "C02-13": "ended as a harness error at first (Balance could not be deployed): deployments are co-signed by the chain's validators too, and the validators' account is tried as a signer of every Alphabet-only method",
  "C13-17": "missed at first: 150-round sleeps also placed one, two and three rounds before the default designation round",
